@@ -82,7 +82,9 @@ class PeekV:
 
 
 class SetV:
-    """HashSet.  Elements may be symbolic; membership is decided by equality formulas."""
+    """HashSet.  Elements may be symbolic; membership is decided by equality formulas.  `items` is a
+    list of (guard, element): conditional members arise when a summary of a pure accumulator call is
+    instantiated."""
 
     def __init__(self):
         self.items = []
@@ -195,6 +197,7 @@ class Interp:
                     mod.impls.append(it)
         self.stubs = {}          # (module, fn) or fn -> python callable(interp, args)
         self.summarize_fns = set()
+        self.summarize_acc = {}
         self.hash_order_nondet = False
         self.call_depth = 0
         self.max_call_depth = 400
@@ -281,6 +284,127 @@ class Interp:
         stub = self.stubs.get(name)
         if stub is not None:
             return stub(self, args)
+        if name in self.summarize_fns:
+            if name in self.summarize_acc:
+                return self.summarize_accumulator(mod, fn, args, self.summarize_acc[name])
+            return self.summarize(mod, fn, args)
+        return self.call_fn_raw(mod, fn, args)
+
+    def summarize_accumulator(self, mod, fn, args, pos):
+        """A call that only adds to a set passed at position `pos` (term::free_variables): explore
+        it once with an empty set, then add the conditional members to the caller's set."""
+        ex = self.ex
+        target = self.deref(args[pos])
+        if not isinstance(target, SetV):
+            raise InternalError("accumulator is not a set")
+        rest = [a for i, a in enumerate(args) if i != pos]
+        key = (mod.name, fn["name"], "acc") + tuple(self.vkey(a) for a in rest)
+        ent = ex.summaries.get(key)
+        if ent is None:
+            members = []
+            bad = []
+            depth = self.call_depth
+            fuel = ex.fuel_left
+
+            def thunk(ex2):
+                acc = SetV()
+                a2 = list(args)
+                a2[pos] = acc
+                self.call_fn_raw(mod, fn, a2)
+                return acc
+
+            def on_end(ex2, outcome):
+                fr = ex2.f
+                pg = z_and(*fr.dguards)
+                if outcome[0] == "ok":
+                    for g, x in outcome[1].items:
+                        members.append((z_and(pg, g), x))
+                else:
+                    bad.append((pg, outcome))
+            before = ex.stats.aborted
+            ex.stats.summaries += 1
+            p0 = ex.stats.paths
+            ex.explore(thunk, on_end)
+            ex.stats.summary_paths += ex.stats.paths - p0
+            ex.stats.paths = p0
+            self.call_depth = depth
+            ex.fuel_left = fuel
+            if ex.stats.aborted - before or bad:
+                raise InternalError("accumulator summary with aborted or failing paths")
+            ent = (members, rest)
+            ex.summaries[key] = ent
+        target.items.extend(ent[0])
+        return UNIT
+
+    # ------------------------------------------------------------------------------------
+    # summaries of pure calls: explore the call once under the harness-level assumptions, merge
+    # the results of its paths into one guarded value, memoise on the argument identities
+    def vkey(self, v):
+        v = self.deref(v)
+        if isinstance(v, (bool, int, str)):
+            return v
+        if is_sym(v):
+            return ("z", v.get_id())
+        if isinstance(v, InputTerm):
+            return ("n", v.uid)
+        if isinstance(v, (Big, ISz, Char)):
+            return (type(v).__name__, self.vkey(v.v))
+        return ("o", id(v))
+
+    def summarize(self, mod, fn, args):
+        from .merge import merge_tree
+        ex = self.ex
+        key = (mod.name, fn["name"]) + tuple(self.vkey(a) for a in args)
+        ent = ex.summaries.get(key)
+        if ent is None:
+            results = []
+            others = []
+            depth = self.call_depth
+            fuel = ex.fuel_left
+
+            def thunk(ex2):
+                return self.call_fn_raw(mod, fn, args)
+
+            def on_end(ex2, outcome):
+                fr = ex2.f
+                if outcome[0] == "ok":
+                    results.append((list(fr.trace), list(fr.dguards), outcome[1]))
+                else:
+                    others.append((z_and(*fr.dguards), outcome))
+            before = ex.stats.aborted
+            ex.stats.summaries += 1
+            p0 = ex.stats.paths
+            ex.explore(thunk, on_end)
+            ex.stats.summary_paths += ex.stats.paths - p0
+            ex.stats.paths = p0
+            self.call_depth = depth
+            ex.fuel_left = fuel
+            aborted = ex.stats.aborted - before
+            value = merge_tree(results) if results else None
+            cover = None
+            if aborted:
+                cover = z_or(*([z_and(*g) for _, g, _ in results] + [g for g, _ in others]))
+            ent = (value, others, cover, args)
+            ex.summaries[key] = ent
+        value, others, cover, _ = ent
+        if cover is not None:
+            ex.assume(cover)
+        if others:
+            guards = [g for g, _ in others]
+            okg = z_not(z_or(*guards)) if value is not None else False
+            i = ex.decide([okg] + guards)
+            if i > 0:
+                kind, payload = others[i - 1][1]
+                if kind == "panic":
+                    raise payload
+                raise FuelExhausted()
+        if value is None:
+            raise PathAbort("summary without result")
+        return value
+
+    def call_fn_raw(self, mod, fn, args):
+        ex = self.ex
+        name = fn["name"]
         ex.functions_executed.add(mod.name + "::" + name)
         ex.fuel_left -= 1
         if ex.fuel_left < 0:
@@ -688,6 +812,21 @@ class Interp:
                             if b is not None:
                                 env.vars[b] = node.kid(i)
                     return True
+        if isinstance(dv, Union) and all(isinstance(x, Adt) for _, x in dv.alts):
+            grp = self.or_group(cases, mod)
+            if grp is not None:
+                names, binds = grp
+                nameset = set(names)
+                sel = self.union_select(dv, lambda x: x.variant in nameset)
+                if sel is None:
+                    return False
+                if any(b is not None for b in binds):
+                    from .merge import merge
+                    alts = sel.alts if isinstance(sel, Union) else [(True, sel)]
+                    for i, b in enumerate(binds):
+                        if b is not None:
+                            env.vars[b] = merge([(g, x.fields[i]) for g, x in alts])
+                return True
         for c in cases:
             sub = Env(env)
             if self.pmatch(c, v, sub, mod):
@@ -695,9 +834,80 @@ class Interp:
                 return True
         return False
 
+    def or_group(self, cases, mod):
+        """If every case is `Ctor(binders/wildcards)` with the same binders, return (names, binders)."""
+        names = []
+        shape = None
+        for c in cases:
+            cn = self.pat_ctor_name(c, mod)
+            if cn is None or cn[0] == "Let":
+                return None
+            sh = []
+            for p in cn[1]:
+                if p["k"] == "PWild":
+                    sh.append(None)
+                elif p["k"] == "PIdent" and p["sub"] is None and not p["name"][0].isupper():
+                    sh.append(p["name"])
+                else:
+                    return None
+            binds = tuple(sh)
+            has = any(x is not None for x in binds)
+            if shape is None:
+                shape = binds
+            elif has or any(x is not None for x in shape):
+                if binds != shape:
+                    return None
+            names.append(cn[0])
+        if not names:
+            return None
+        return names, (shape if any(x is not None for x in shape) else ())
+
+    def union_select(self, u, pred):
+        """Restrict a union of Adt alternatives to those satisfying `pred` (a two-way decision).
+        Returns the merged selected value, or None if the path continues with the others."""
+        from .merge import merge
+        fr = self.ex.f
+        ekey = ("excl", id(u))
+        excl = fr.locals.get(ekey)
+        if excl is None:
+            excl = set()
+            fr.locals[ekey] = excl
+            fr.locals[("pin", id(u))] = u
+        yes = []
+        no = []
+        for i, (g, x) in enumerate(u.alts):
+            if i in excl:
+                continue
+            (yes if pred(x) else no).append((i, g, x))
+        if not yes:
+            return None
+        gy = z_or(*[g for _, g, _ in yes])
+        if no:
+            gn = z_or(*[g for _, g, _ in no])
+            took = self.ex.decide([gy, gn]) == 0
+        else:
+            # nothing else is left: the remaining alternatives are the selected ones
+            took = True
+        if took:
+            for i, _, _ in no:
+                excl.add(i)
+            if len(yes) == 1:
+                return yes[0][2]
+            return merge([(g, x) for _, g, x in yes])
+        for i, _, _ in yes:
+            excl.add(i)
+        return None
+
     def match_ctor(self, cname, subpats, path, v, env, mod):
         dv = self.deref(v)
         if isinstance(dv, Union):
+            if all(isinstance(x, Adt) for _, x in dv.alts):
+                sel = self.union_select(dv, lambda x: x.variant == cname)
+                if sel is None:
+                    return False
+                if isinstance(sel, Union):
+                    sel = self.resolve(sel)
+                return self.match_fields(sel, subpats, env, mod)
             dv = self.resolve(dv)
         if isinstance(dv, IVar):
             node = dv.node
@@ -1006,7 +1216,9 @@ class Interp:
 
     def set_distinct(self, s):
         out = []
-        for x in s.items:
+        for g, x in s.items:
+            if not self.truth(g):
+                continue
             dup = False
             for y in out:
                 if self.truth(self.sym_eq(x, y)):
@@ -1014,7 +1226,7 @@ class Interp:
                     break
             if not dup:
                 out.append(x)
-        s.items = out
+        s.items = [(True, x) for x in out]
         return list(out)
 
     def e_For(self, e, env, mod):
